@@ -329,6 +329,14 @@ fn scenarios_c10(tier: Tier) -> Vec<Scenario> {
             }
         }
     }
+    // the default seed of every preset
+    for preset in [Preset::DiagNuts, Preset::DiagMclmc] {
+        for &(ch, co) in &[(1usize, 1usize), (2, 1), (2, 2)] {
+            let mut s = base(format!("{preset:?}/c{ch}k{co}/none/seed0"), preset, ch, co, vec![], Terminal::WaitLong, tier.pick(1, 2));
+            s.seed = 0;
+            out.push(s);
+        }
+    }
     // a chain whose first initial point is rejected (recoverable density error) retries from its
     // OWN random stream: its rows must not depend on what other chains have done by then
     for preset in [Preset::DiagNuts, Preset::DiagMclmc] {
@@ -448,6 +456,11 @@ fn scenarios_c12(tier: Tier) -> Vec<Scenario> {
         vec![Op::Resume],
         vec![Op::Resume, Op::Pause, Op::Sleep, Op::Resume],
         vec![Op::Pause, Op::Sleep],
+        // commands that are not pause / resume, issued inside a pause window: nothing may move
+        vec![Op::Pause, Op::Sleep, Op::Flush, Op::Sleep, Op::Resume],
+        vec![Op::Pause, Op::Sleep, Op::Inspect, Op::Sleep, Op::Resume],
+        vec![Op::Pause, Op::Sleep, Op::Progress, Op::Sleep, Op::Resume],
+        vec![Op::Pause, Op::Flush, Op::Sleep],
     ];
     let cfgs: Vec<(usize, usize)> = tier.pick(vec![(1, 1), (2, 1), (2, 2)], vec![(1, 1), (2, 1), (2, 2), (3, 1), (3, 2)]);
     let mut out = vec![];
